@@ -2,7 +2,7 @@
 import fnmatch
 from ..lin import Lin
 from ..ir import exit_line
-from ..pathflags import Engine, BudgetExceeded
+from ..pathflags import Engine, BudgetExceeded, run_adaptive
 from ..flags import DFlags
 from .. import api
 from .c05 import convention, STATUS_OK, describe, ASSUME_QUIET, OPAQUE
@@ -31,12 +31,13 @@ def explore(prog, name, budget=300000):
     if r is None:
         return dict(skip="no dest parameter")
     d, m = r
-    plugin = DFlags(dest=d, dmax=m or "dmax", noinline=[n for n in OPAQUE if n != name], assume_quiet=ASSUME_QUIET.get(name))
-    eng = Engine(prog, fn, plugin, budget=budget)
+    mk = lambda: DFlags(dest=d, dmax=m or "dmax", noinline=[n for n in OPAQUE if n != name], assume_quiet=ASSUME_QUIET.get(name), opaque_convention=OPAQUE)
     try:
-        res = eng.run()
+        eng = run_adaptive(prog, fn, mk, budgets=(60000, budget))
     except BudgetExceeded as e:
         return dict(budget=str(e))
+    plugin = eng.plugin
+    res = eng.results
     conv = convention(fn)
     # RSIZE-style limits the function itself applies to dmax
     limits = set()          # (scale, K): the function rejects scale*dmax > K
@@ -70,6 +71,12 @@ def explore(prog, name, budget=300000):
                     break
             if plugin.destbos is not None and eng.decide(("cmp", "ugt", plugin.dmax.scale(plugin.unit), plugin.destbos), facts) is True:
                 ex.append("dmax-above-object")
+        for zn in ("slen", "n", "count", "len"):
+            zp = fn.pnames.get(zn)
+            if zp is not None and zp["ty"] == "i64" and zn != m and not dirty:
+                if eng.decide(("cmp", "eq", Lin.atom(zp["id"]), Lin.const(0)), facts) is True:
+                    ex.append("zero-length-request")
+                    break
         d_ = describe(rv)
         r = eng.as_lin(rv) if rv is not None and rv[0] in ("i", "p") else None
         err = None
@@ -92,7 +99,7 @@ def explore(prog, name, budget=300000):
             continue
         seen.add(key)
         outs.append(dict(ret=d_, err=err, dirty=dirty, clr_first=c1, clr_full=cf, nul=nul, exempt=ex, line=line, path=path[-10:] if path else None))
-    return dict(outcomes=outs, n_paths=len(res), states=eng.nstates, conv=conv, file=fn.file, unit=plugin.unit)
+    return dict(outcomes=outs, n_paths=len(res), states=eng.nstates, conv=conv, file=fn.file, unit=plugin.unit, precision=eng.precision)
 
 
 def anchored_writers(prog, pid, extra_exclude=()):
